@@ -12,6 +12,8 @@ import (
 // c15Extra: rules added after the third independent seeding round.
 func c15Extra(r *core.Run, pkg string) {
 	p := r.P
+	defer c15SnapshotRevision(r, pkg)
+	defer c15PutAlwaysDelivered(r, pkg)
 	r.Check("D4/K1/retry-deadline-armed-per-attempt", "a request to etcd that is retried in a loop gets its deadline per attempt: where a call of an EtcdClient method sits in a loop and its context comes from context.WithTimeout/WithDeadline, that context is created inside the same loop (a deadline armed once before the loop expires during the first failed attempts; every later retry then fails at once and the snapshot is never loaded)", func(o *core.O) {
 		n := 0
 		for _, f := range p.PkgFuncs(pkg) {
@@ -209,6 +211,7 @@ func c15Extra(r *core.Run, pkg string) {
 func c15ExtraSub(r *core.Run, pkg string) {
 	p := r.P
 	defer c15RemovedKeyLeavesList(r, pkg)
+	defer c15RemovalVisitsWholeList(r, pkg)
 	defer c15DirtyInHold(r, pkg)
 	r.Check("D4/K3/options-before-container", "the subscriber's container is created after the options were applied: no option runs after newContainer read the exclusive flag (else Exclusive() is silently ignored)", func(o *core.O) {
 		n := 0
